@@ -305,6 +305,10 @@ func c10Spaces(tier string) []pairLeg {
 		add("mixed", thin(Mixed(), 50))
 		add("hostile-arrays", thin(HostileArrays(), 60))
 	}
+	// own-output only (no deviations): documents beyond the small scope
+	add("own:large", Large().Filter(func(v V) bool { return len(ref.JSON(v)) < 5000 }))
+	add("own:numbers", NumDocs())
+	add("own:strings", StrDocs())
 	return legs
 }
 
@@ -328,7 +332,7 @@ func init() {
 		Run:      runC10,
 		Required: func(string) []string { return []string{"jd-applies", "jd-rejects-at-patch", "rfc-also-rejects"} },
 		Assume:   []string{"supported subset = the group grammar of DESIGN.md section 6 (C10)", "RFC 6902 evaluator of /verif/mc/ref"},
-		Budget:   budget(5*time.Minute, 45*time.Minute),
+		Budget:   budget(8*time.Minute, 45*time.Minute),
 	})
 }
 
@@ -401,6 +405,10 @@ func enumC10(tier string, e *engine.Emitter) {
 				if inexpressible(hs) != "" {
 					// jd rendered a patch although its own reader cannot express the path:
 					// its own output must still read back and reproduce b
+					e.Do(engine.Case{Kind: "c10own", Leg: l.Name + "/own-output", A: at, B: bt, C: at, X: p0})
+					continue
+				}
+				if strings.HasPrefix(l.Name, "own:") {
 					e.Do(engine.Case{Kind: "c10own", Leg: l.Name + "/own-output", A: at, B: bt, C: at, X: p0})
 					continue
 				}
